@@ -486,7 +486,7 @@ func trunc(s string, n int) string {
 }
 
 var c19Main = newPart("C19", "hostile-histories",
-	"rapid: histories of 2..16 requests to the REAL server binary: methods {GET,POST,PUT,DELETE,HEAD,PATCH,OPTIONS} x paths (ten endpoints, /, /docs..., unknown, 4 KiB long, percent-encoded, doubled/trailing slashes, case variants) x bodies from a JSON mutation grammar over each endpoint's well-formed body (empty, truncated at any byte, unterminated string, a valid object followed by trailing bytes, arbitrary bytes, a dropped field, every field x every JSON type incl. null/bool/array/object/number where a string is expected, numbers at +-2^53, +-2^63, 2^64, 1e400, -1, 1.5, numbers drawn from the whole JSON number grammar (zero and non-zero mantissas of up to 1000 digits, fractions, exponents up to +-2^63 and beyond), skew/period/counter/timestamp extremes, blank and 1 MiB strings, contradictory suites incl. blank raw_suite, nested arrays, bodies at and over the 1 MiB limit), every 3rd..5th request a well-formed probe whose answer is checked against the reference; invariant over the history: every request gets a complete parseable HTTP response within 5 s (one lone retry with 15 s), syntactically broken bodies on the POST endpoints, wrong methods (other than HEAD / OPTIONS) and plain unknown paths get a failure status (>= 400); wrongly typed / out-of-range / blank / missing-required fields get a failure status or, if the service handles them, the endpoint's actual result (never an error description under a success status), probes 200 with the RFC value, the process is alive and reports no unrecovered panic; non-trivial = history with at least one non-well-formed request",
+	"rapid: histories of 2..16 requests to the REAL server binary: methods {GET,POST,PUT,DELETE,HEAD,PATCH,OPTIONS, extension and odd tokens such as PROPFIND, BREW, TRACE, CONNECT, get, a 40-letter token} x paths (ten endpoints, /, /docs..., unknown, 4 KiB long, percent-encoded, doubled/trailing slashes, case variants) x bodies from a JSON mutation grammar over each endpoint's well-formed body (empty, truncated at any byte, unterminated string, a valid object followed by trailing bytes, arbitrary bytes, a dropped field, every field x every JSON type incl. null/bool/array/object/number where a string is expected, numbers at +-2^53, +-2^63, 2^64, 1e400, -1, 1.5, numbers drawn from the whole JSON number grammar (zero and non-zero mantissas of up to 1000 digits, fractions, exponents up to +-2^63 and beyond), skew/period/counter/timestamp extremes, blank and 1 MiB strings, contradictory suites incl. blank raw_suite, nested arrays, bodies at and over the 1 MiB limit), every 3rd..5th request a well-formed probe whose answer is checked against the reference; invariant over the history: every request gets a complete parseable HTTP response within 5 s (one lone retry with 15 s), syntactically broken bodies on the POST endpoints, wrong methods (other than HEAD / OPTIONS) and plain unknown paths get a failure status (>= 400); wrongly typed / out-of-range / blank / missing-required fields get a failure status or, if the service handles them, the endpoint's actual result (never an error description under a success status), probes 200 with the RFC value, the process is alive and reports no unrecovered panic; non-trivial = history with at least one non-well-formed request",
 	checkC19)
 
 var jsonValues = []string{"null", "true", "false", "0", "1", "-1", "1.5", "1e3", "1e400", "-1e400", "9007199254740992", "-9007199254740993", "9223372036854775807", "9223372036854775808", "-9223372036854775808", "-9223372036854775809",
@@ -507,7 +507,9 @@ func drawJSONNumber(t *rapid.T) string {
 }
 
 func drawHostile(t *rapid.T) hostileReq {
-	h := hostileReq{Method: rapid.SampledFrom([]string{"POST", "POST", "POST", "POST", "GET", "PUT", "DELETE", "HEAD", "PATCH", "OPTIONS"}).Draw(t, "method")}
+	h := hostileReq{Method: rapid.SampledFrom([]string{"POST", "POST", "POST", "POST", "GET", "PUT", "DELETE", "HEAD", "PATCH", "OPTIONS",
+		// method tokens outside the usual ones: extension methods, the two a proxy would handle, other letter cases, a long token
+		"PROPFIND", "BREW", "TRACE", "CONNECT", "PURGE", "M-SEARCH", "get", "Post", "G", "QUERYQUERYQUERYQUERYQUERYQUERYQUERYQUERY"}).Draw(t, "method")}
 	eps := []string{"totp-gen", "totp-val", "hotp-gen", "hotp-val", "ocra-gen", "ocra-val", "suite", "url"}
 	h.Ep = rapid.SampledFrom(eps).Draw(t, "ep")
 	switch rapid.IntRange(0, 9).Draw(t, "pathKind") {
